@@ -15,7 +15,7 @@ D8 = "D8-lints-neighbourhood-simulator"
 def sim_plan_st(draw, tier, ctx=None, want_absent_arms=False, max_bandits=3):
     kind, arms = draw(gen.arms_st(("int", "str"), 2, 4))
     contextual_data = draw(st.integers(0, 4)) > 0
-    n = draw(st.integers(8, 24 if tier == "quick" else 40))
+    n = draw(st.integers(8, 40))
     d = draw(st.integers(1, 3))
     nb = draw(st.integers(1, max_bandits))
     bandits = []
@@ -60,10 +60,25 @@ def sim_plan_st(draw, tier, ctx=None, want_absent_arms=False, max_bandits=3):
     contexts = draw(gen.contexts_st(n, d, draw(st.sampled_from(["int", "small"])))) if contextual_data else None
     n_test = draw(st.integers(1, max(1, n - max(min_train, 2))))
     test_size = (n_test - 0.5) / n
+    exact_count = True
+    if draw(st.booleans()):
+        # a 'round' decimal fraction, as users write it: n * test_size may land on or next to an integer in floating
+        # point, where int(n * (1 - test_size)) and ceil(n * test_size) need not add up to n
+        import math
+        cands = [k / 100.0 for k in range(5, 96)]
+        ok = [t for t in cands if int(n * (1 - t)) >= min_train and n - int(n * (1 - t)) >= 1
+              and n - math.ceil(t * n) >= min_train and math.ceil(t * n) >= 1]
+        edge = [t for t in ok if abs(n * t - round(n * t)) < 1e-9 or abs(n * (1 - t) - round(n * (1 - t))) < 1e-9]
+        if edge and draw(st.booleans()):
+            ok = edge           # products that are integers up to rounding: where two ways of counting can disagree
+        if ok:
+            test_size = draw(st.sampled_from(ok))
+            n_test = min(n - int(n * (1 - test_size)), math.ceil(test_size * n))
+            exact_count = False
     online = draw(st.booleans())
     batch_size = draw(st.integers(1, n_test)) if online else 0
     return {"arms": arms, "bandits": bandits, "decisions": decisions, "rewards": rewards, "contexts": contexts,
-            "test_size": test_size, "n_test": n_test, "is_ordered": draw(st.booleans()), "batch_size": batch_size,
+            "test_size": test_size, "n_test": n_test, "exact_count": exact_count, "is_ordered": draw(st.booleans()), "batch_size": batch_size,
             "is_quick": draw(st.booleans()), "seed": draw(st.integers(0, 2 ** 16)),
             "data_container": draw(st.sampled_from(["list", "ndarray"]))}
 
